@@ -44,6 +44,13 @@ def sh(cmd, timeout=1800, cwd=ROOT, env=None, capture=True):
         e.pop(var, None)
     if not (env and "CARGO_TARGET_DIR" in env):
         e.pop("CARGO_TARGET_DIR", None)
+    # developer knobs of the runners (scenario counts, parallelism, debug output) must not leak from the
+    # caller's shell into a registered check; a check that needs one passes it through `env=` or sets
+    # VERIF_DEV=1 (VERIF_C08_DRIVER is set by checks/c08.py itself)
+    if not e.get("VERIF_DEV"):
+        for var in list(e):
+            if re.match(r"^(E2E_|C\d\d_)", var) or var in ("VERIF_C08_ULIMIT_KB", "VERIF_C08_SMALL_STACK_KB"):
+                e.pop(var)
     if env:
         e.update(env)
     try:
@@ -161,7 +168,7 @@ def proof_stage(pid, targets, allow_axioms=()):
             res["failures"].append(f"theorems of Props/{pid}.v that are not pinned (regenerate with orchestrate/mkpins.py): {unpinned}")
     except OSError:
         pass
-    rc2, out2 = sh(f"coqc -Q {COQ} SV -noglob {pin}", timeout=600)
+    rc2, out2 = sh(f"coqc -Q {COQ} SV -noglob {pin}", timeout=3000)
     for junk in ("vo", "vos", "vok", "glob"):
         try:
             os.remove(pin[:-1] + junk)
